@@ -46,8 +46,12 @@ let () = each_line (fun l ->
     let wmid = List.length a.rules <= 8 && List.length b.rules <= 10 in
     let wl_model = if wmid then up_worklist a b (nat_of_int 300) else None in
     let keyed_model = if wmid then up_worklist_keyed a b (nat_of_int 300) else None in
+    (* upward inclusion with a simulation preorder: run with the greatest relation the model can compute (and verify) on the bigger automaton *)
+    let sim_model = if wmid then up_sim_model (nat_of_int 300) a b else None in
+    let sim_nonid = wmid && List.exists (fun (p, q) -> p <> q) (upsim_gfp b) in
     let drift = (if prepared_shape sa sb n then [] else ["sanitize_shape"]) @ (if up_ac a b = truth then [] else ["antichain_model"])
       @ (match wl_model with Some v -> if v = truth then [] else ["up_worklist_model"] | None -> [])
+      @ (match sim_model with Some v -> if v = truth then [] else ["up_sim_model"] | None -> [])
       @ (match down_model with Some v -> if v = truth then [] else ["down_model"] | None -> [])
       @ (match cache_model with Some v -> if v = truth then [] else ["down_cache_model"] | None -> [])
       @ (if List.exists (fun v -> v = "Ecrash") qs then ["untrimmed_sim_crash"] else [])
@@ -61,5 +65,6 @@ let () = each_line (fun l ->
     ^ (match shared_model with Some v when v <> truth -> " discriminates_shared_cache" | _ -> "")
     ^ (match careless_model with Some v when v <> truth -> " discriminates_careless_promotion" | _ -> "")
     ^ (match keyed_model with Some v when v <> truth -> " discriminates_keyed_worklist" | _ -> "")
+    ^ (match sim_model with Some _ -> if sim_nonid then " up_sim_model_run_nonidentity" else " up_sim_model_run_identity" | None -> "")
     ^ (if small then (match down_model with None -> " down_model_out_of_fuel" | Some _ -> " down_model_run") else "")
   | _ -> "FAIL exception " ^ o)
